@@ -17,11 +17,13 @@
    so a state in which two goroutines are both between their CLook and their
    CRest exists, and a schedule CLook 0; CLook 1; CRest 0; CRest 1 is a
    schedule of the system whenever the lock side permits it. With
-   `locked = false` (CLook needs no lock) that schedule draws two IDs
-   (Proofs/StartConcEx.v). With `locked = true` the only coupling between the
+   `locked = false` (CLook needs no lock) that schedule draws two IDs when the
+   cache is off, and with the cache on hands the second goroutine the session
+   without a redirecting cookie (Proofs/StartConcEx.v). With `locked = true` the only coupling between the
    two sides is program order inside ONE goroutine:
 
-     CLook g    is enabled once g's own Lock(k) has returned (g is in GHold k)
+     CLook g    is enabled once g's own Lock(id) has returned (g is in GHold of
+                the lock key of the cookie its request presents)
      LLeave g   (the deferred Unlock) is enabled once g's own Start has
                 returned (g's phase is PDone)
 
@@ -30,6 +32,29 @@
    only while no goroutine is between look-up and rest: a request reads the
    clock once (as Hist.step does; a clean-up firing inside a request is C05S's
    subject, Model/StartSteps.v).
+
+   WHERE THE LOCK KEY COMES FROM. In Go the key of the per-ID lock IS the cookie
+   value, and a value that is not a 24-character ID takes no lock at all
+   (session.go: `if len(id) == 24 { Lock(id); defer Unlock(id); ...`). Here
+   `lock_key` maps the cookie a request presents to the key it must hold
+   (`key_code`, injective) or to None (no ID: CLook needs no lock), and CLook g
+   is guarded by g holding THAT key. The theorems about the locked system are
+   about K requests that all carry one ID k as a forged cookie (`plain_on`: so
+   the value does not depend on a jar) and run the lock script
+   [OLock (key_code k)]; requests presenting different IDs are not serialised
+   by this lock and nothing is claimed about them.
+
+   WHAT IS INSIDE THE CRITICAL SECTION HERE THAT IS NOT IN GO. `req_finish` is
+   Hist.step's whole epilogue: it fires the clean-ups that are due right after
+   Start (`fire_due`) and runs the HANDLER SCRIPT (`rq_script`) inside CRest g,
+   and LLeave g waits for PDone. In Go the deferred Unlock fires when Start
+   returns, BEFORE the handler runs, and the clean-up goroutine is not under
+   this lock either. So for a request with a non-empty handler script this
+   system would claim a serialisation the code does not give: every theorem
+   about the locked system is therefore stated for PLAIN calls of Start only
+   (`plain_on`: empty handler script; part of the invariant's hypothesis PC),
+   for which the epilogue is: due clean-ups at the unchanged clock (those this
+   very call queued with a grace period of 0), cookies, the observation.
 
    `start_lookup`/`start_rest` and `req_finish` are copies of Sess.start and of
    the HReq branch of Hist.step, cut in two; Proofs/StartConc.v proves that the
@@ -172,6 +197,18 @@ Inductive clabel :=
 Definition is_looked (p : phase) : bool := match p with PLooked _ _ _ _ _ => true | _ => false end.
 Definition is_done (p : phase) : bool := match p with PDone _ => true | _ => false end.
 
+(* the lock key of a presented cookie: Go locks on the cookie value itself, and
+   only when it has the length of an ID *)
+Definition key_code (k : key) : nat :=
+  match k with KGen n => N.to_nat (2 * n) | KJunk n => N.to_nat (2 * n + 1) end.
+Definition lock_key (c : cval) : option nat :=
+  match c with CKey k => Some (key_code k) | _ => None end.
+
+(* a plain call of Start carrying the ID whose lock key is kk as a forged
+   cookie: empty handler script *)
+Definition plain_on (kk : nat) (r : reqstep) : Prop :=
+  rq_script r = [] /\ exists k0, rq_present r = PForge (CKey k0) /\ key_code k0 = kk.
+
 (* g's Lock(k) has returned and its Unlock has not begun *)
 Definition holds_key (st : state) (g k : nat) : bool :=
   match nth_error (gs st) g with
@@ -181,7 +218,7 @@ Definition holds_key (st : state) (g k : nat) : bool :=
 
 Section System.
   Variable locked : bool.          (* false: Start without the per-ID lock *)
-  Variable k : nat.                (* the lock key: the presented session ID *)
+  Variable k : nat.                (* the lock key the K goroutines ask for (cinit only) *)
   Variable reqs : list reqstep.    (* goroutine g's request *)
 
   Definition cstep (cs : cstate) (lab : clabel) : option cstate :=
@@ -201,9 +238,13 @@ Section System.
     | CLook g =>
       match nth_error (c_ph cs) g, nth_error reqs g with
       | Some PIdle, Some r =>
-        if negb locked || holds_key (c_lock cs) g k then
-          let s0 := set_evs (c_st cs) [] in
-          let jar := jar_of (c_jars cs) (rq_client r) in
+        let s0 := set_evs (c_st cs) [] in
+        let jar := jar_of (c_jars cs) (rq_client r) in
+        let holds := match lock_key (q_cookie (rq_request jar r)) with
+                     | Some kk => holds_key (c_lock cs) g kk
+                     | None => true
+                     end in
+        if negb locked || holds then
           let '(s1, found, cks, failed) := start_lookup (rq_prepare s0 r) (rq_request jar r) in
           Some (mkC (c_lock cs) s1 (c_jars cs) (upd g (PLooked s0 jar found cks failed) (c_ph cs)) (c_acts cs))
         else None
